@@ -3,6 +3,7 @@ import HC.Proto.Heads
 import HC.Props.C12
 import HC.Props.C19
 import HC.Proto.H2Window
+import HC.Proto.H2WireInv
 /-!
 # C02 — HTTP response delivery fidelity and legal framing (the hypercorn side of it)
 
@@ -305,5 +306,325 @@ example : (feed { method := "GET", version := "1.1" } (wfApp 200 [(.bytes "x-a".
     [.response 200 [("x-a".b, "1".b)], .body "ab".b, .body "c".b, .endBody, .access (some 200), .streamClosed] := by decide
 example : (feed { method := "HEAD", version := "1.1" } (wfApp 200 [] ["ab".b])).2 =
     [.response 200 [], .endBody, .access (some 200), .streamClosed] := by decide
+
+/-! ### HTTP/2 end to end: application messages → stream events → send path → frames on the wire -/
+section H2
+open HC.Proto.H2Wire HC.Proto.H2Send HC.Proto.Heads
+
+/-- the source facts the contents wrapper rests on (read off `h2.py` by `tools/extract_req.py`): the response head is
+    `send_headers(stream_id, [(":status", …)] + event.headers + response_headers("h2"))`; what `_send_data` pops is what it hands
+    to `send_data`; `StreamBuffer.push` extends the buffer at the back, `pop` takes `buffer[:length]` from the front -/
+theorem h2_contents_assumed :
+    ReqGlue.h2HeadArgs = ["event.stream_id", "[(b':status', b'%d' % event.status_code)] + event.headers + self.config.response_headers('h2')"] ∧
+    ReqGlue.sendDataArgs = ["data", "stream_id", "data"] ∧
+    ReqGlue.bufferFifo = ["self.buffer.extend(data)", "length = min(len(self.buffer), max_length)", "data = bytes(self.buffer[:length])",
+                          "del self.buffer[:length]"] := by decide
+
+/-- the frame that ends a stream is the trailers HEADERS frame exactly when trailers are pending -/
+theorem end_frame_spec (t : Headers) : endFrame t = (if t = [] then Frame.endStream else Frame.trailersEnd t) := by
+  cases t <;> simp [endFrame, ReqGlue.endStreamTest]
+
+/-- **the send path with contents refines the send path of C08/C09**: the `H2Send` component of every wrapped run is an
+    `H2Send` run from `init` that meets `opOk` — so it is `Reachable`, and every theorem of C08/C09 applies to it -/
+theorem wire_refines (srv : Headers) (cw : Int) (mf : Nat) (hmf : 0 < mf) (ops : List GOp) (g : G)
+    (hok : gAllOk srv (ginit cw mf) ops) (hr : grun srv (ginit cw mf) ops = some g) :
+    runOk (init cw mf) (ops.flatMap proj) = some g.s ∧ HC.Props.C09.allOk (init cw mf) (ops.flatMap proj) ∧ HC.Props.C09.Reachable g.s :=
+  ⟨(run_proj srv ops _ _ hok hr).1, (run_proj srv ops _ _ hok hr).2, run_reachable srv cw mf hmf ops g hok hr⟩
+
+/-- the contents model never disagrees with the byte counters: what `bufB` holds for a stream is as long as `H2Send` says its
+    buffer is, and — while the connection is open and the stream not reset — DATA written ++ bytes buffered = bytes handed
+    over (FIFO: nothing reordered, nothing lost, nothing invented) -/
+theorem fifo (srv : Headers) (cw : Int) (mf : Nat) (hmf : 0 < mf) (ops : List GOp) (g : G)
+    (hok : gAllOk srv (ginit cw mf) ops) (hr : grun srv (ginit cw mf) ops = some g) (i : Nat) :
+    (g.bufB i).length = (g.s.str i).buf ∧
+    (g.s.closed = false → (g.s.str i).libClosed = false → ph (g.hist i) ≠ 9 →
+      dataOf (wireOf i g.out) ++ g.bufB i = bodyOf (g.hist i)) := by
+  have hp := p_run srv ops _ g (p_init srv cw mf hmf) hok hr
+  exact ⟨hp.len i, fun h1 h2 h3 => (hp.str i ⟨h1, h2, h3⟩).jd⟩
+
+/-- **HTTP/2 response delivery, for every schedule.**  Take any schedule `ops` of the send path — any interleaving of
+    the stream events of any number of streams with WINDOW_UPDATE / SETTINGS / PRIORITY frames, the send task's picks
+    (whatever unblocked stream the priority tree hands out), its suspensions inside `_send_data`, and the wake-ups of waiting
+    senders — in which the stream events of stream `i` are those of one response: head `(status, vh)`, body chunks `ds` (any
+    number, any sizes: beyond the frame size, beyond the windows), trailers `ts`, end of body (and stream closed).  If the
+    schedule ends with the send task quiescent, the connection open, the stream not reset and credit available on the
+    stream and the connection, then the client has been sent on stream `i` **exactly**:
+    one HEADERS frame `:status ++ vh ++ server headers`, then DATA frames whose payloads concatenate to `ds.flatten`,
+    then exactly one frame that ends the stream — the empty DATA frame with END_STREAM, or, when there are trailers, the
+    HEADERS frame carrying all of them and END_STREAM — and nothing else. -/
+theorem h2_response_delivered (srv : Headers) (cw : Int) (mf : Nat) (hmf : 0 < mf) (ops : List GOp) (g : G)
+    (hok : gAllOk srv (ginit cw mf) ops) (hr : grun srv (ginit cw mf) ops = some g)
+    (i status : Nat) (vh : Headers) (ds : List Bytes) (ts : List Headers) (closed : Bool)
+    (happ : appOps i ops = script status vh ds ts closed)
+    (hq : HC.Props.C09.taskQuiescent g.s) (hc : g.s.closed = false) (hl : (g.s.str i).libClosed = false)
+    (hw : 0 < (g.s.str i).window) (hcw : 0 < g.s.connWin) :
+    ∃ frames : List Bytes,
+      wireOf i g.out = [.headers (h2Headers status vh srv)] ++ frames.map Frame.data ++ [endFrame ts.flatten] ∧
+      frames.flatten = ds.flatten := by
+  have hp := p_run srv ops _ g (p_init srv cw mf hmf) hok hr
+  have hreach := run_reachable srv cw mf hmf ops g hok hr
+  have hh : g.hist i = (script status vh ds ts closed).reverse := by
+    have := run_hist srv i ops _ g hr
+    simpa [happ, ginit] using this
+  obtain ⟨r1, r2, r3, r4, r5⟩ := script_read srv status vh ds ts closed
+  rw [← hh] at r1 r2 r3 r4 r5
+  have jj := hp.str i ⟨hc, hl, r2⟩
+  have hne : g.hist i ≠ [] := by intro h0; rw [h0] at r1; simp [ph] at r1
+  have ho : (g.s.str i).opened = true := by
+    cases h : (g.s.str i).opened
+    · exact absurd (jj.jopen h) hne
+    · rfl
+  obtain ⟨d1, d2, d3⟩ := HC.Props.C09.delivered_when_quiescent g.s hreach hq hc i ho hl hw hcw
+  have hcpl : (g.s.str i).complete = true := jj.jc.mpr r1
+  have hend : (g.s.str i).ended = true := d3.mpr hcpl
+  have hb : g.bufB i = [] := by
+    have := hp.len i
+    rw [d1] at this
+    exact List.eq_nil_of_length_eq_zero this
+  have hd := jj.jd
+  rw [hb, List.append_nil, r3] at hd
+  have he := jj.je
+  rw [hend, r4] at he
+  simp only [if_true] at he
+  have hhd := jj.jh
+  rw [r5] at hhd
+  obtain ⟨f1, f2⟩ := filter_isData (wireOf i g.out)
+  refine ⟨payloads (wireOf i g.out), ?_, by rw [f2, hd]⟩
+  have hs := jj.js
+  unfold Sorted at hs
+  rw [hhd, f1, he] at hs
+  exact hs
+
+/-- the stream events an `HTTPStream` event becomes in `H2Protocol.stream_send` (the access-log call is not one) -/
+def evOps : List Ev → List AOp
+  | [] => []
+  | .response st hs :: r => .head st hs :: evOps r
+  | .info st hs :: r => .head st hs :: evOps r
+  | .body d :: r => .body d :: evOps r
+  | .trailers hs :: r => .trailers hs :: evOps r
+  | .endBody :: r => .end_ :: evOps r
+  | .streamClosed :: r => .closed :: evOps r
+  | _ :: r => evOps r
+
+theorem evOps_append (a b : List Ev) : evOps (a ++ b) = evOps a ++ evOps b := by
+  induction a with
+  | nil => rfl
+  | cons x xs ih => cases x <;> simp [evOps, ih]
+
+theorem evOps_bodies (l : List Bytes) : evOps (l.map Ev.body) = l.map AOp.body := by
+  induction l with
+  | nil => rfl
+  | cons x xs ih => simp [evOps, ih]
+
+/-- the events of a well-behaved application (C02 `events_of_wf_app`) are, for `stream_send`, the script of one response -/
+theorem wf_app_script (method : String) (status : Nat) (vh : Headers) (chunks : List Bytes) :
+    evOps (specEvents method status vh chunks) =
+      script status vh (if Guards.suppressBody method status then [] else chunks.filter nonEmpty) [] true := by
+  simp only [specEvents, evOps_append, script]
+  by_cases hs : Guards.suppressBody method status = true <;> simp [hs, evOps, evOps_bodies]
+
+/-- **C02 over HTTP/2, end to end in the model**: for every final status, every header list that validates, every
+    chunking of the body (any number of chunks, empty ones included, any sizes) and every schedule of the send path in
+    which the application of stream `i` sends `http.response.start` + its body messages through its `HTTPStream`
+    (`Http.feed`, the model of `app_send`), a schedule that ends quiescent with credit, the stream not reset and the
+    connection open: the client is sent one HEADERS frame `:status ++ validated app headers ++ server headers`, then DATA
+    whose concatenation is exactly the concatenation of the chunks (nothing when the body must be suppressed), then
+    exactly one empty DATA frame with END_STREAM — and nothing else on that stream. -/
+theorem h2_response_end_to_end (s0 : S) (status : Nat) (hs : List (HV × HV)) (vh : Headers) (chunks : List Bytes)
+    (h0 : s0.st = .request) (hv : validateHeaders hs = .ok vh)
+    (srv : Headers) (cw : Int) (mf : Nat) (hmf : 0 < mf) (ops : List GOp) (g : G)
+    (hok : gAllOk srv (ginit cw mf) ops) (hr : grun srv (ginit cw mf) ops = some g) (i : Nat)
+    (happ : appOps i ops = evOps (feed s0 (wfApp status hs chunks)).2)
+    (hq : HC.Props.C09.taskQuiescent g.s) (hc : g.s.closed = false) (hl : (g.s.str i).libClosed = false)
+    (hw : 0 < (g.s.str i).window) (hcw : 0 < g.s.connWin) :
+    ∃ frames : List Bytes,
+      wireOf i g.out = [.headers ((":status".b, natBytes status) :: (vh ++ srv))] ++ frames.map Frame.data ++ [.endStream] ∧
+      frames.flatten = (if Guards.suppressBody s0.method status then [] else chunks.flatten) := by
+  rw [(events_of_wf_app s0 status hs vh chunks h0 hv).1, wf_app_script] at happ
+  obtain ⟨frames, h1, h2⟩ := h2_response_delivered srv cw mf hmf ops g hok hr i status vh _ [] true happ hq hc hl hw hcw
+  refine ⟨frames, ?_, ?_⟩
+  · simpa [endFrame, ReqGlue.endStreamTest, h2Headers] using h1
+  · rw [h2]
+    by_cases hsup : Guards.suppressBody s0.method status = true
+    · simp [hsup]
+    · simp only [hsup]
+      exact flatten_filter_ne chunks
+
+/-- the `http.response.trailers` messages of a well-behaved application: every one but the last with `more_trailers=True` -/
+def trailerMsgs : List (List (HV × HV)) → List (Option Msg)
+  | [] => []
+  | [t] => [some (.trailers (some t) false)]
+  | t :: rest => some (.trailers (some t) true) :: trailerMsgs rest
+
+/-- an application that announces trailers (`"trailers": True` in `http.response.start`), sends its body, then its trailers -/
+def wfAppT (status : Nat) (hs : List (HV × HV)) (chunks : List Bytes) (trs : List (List (HV × HV))) : List (Option Msg) :=
+  some (.start (some status) (some hs) true) :: (bodyMsgs chunks ++ trailerMsgs trs)
+
+/-- every trailer list validates (`build_and_validate_headers` per message) -/
+def validateAll : List (List (HV × HV)) → Except PyErr (List Headers)
+  | [] => .ok []
+  | t :: rest => do
+    let v ← validateHeaders t
+    let r ← validateAll rest
+    pure (v :: r)
+
+theorem feed_append (s : S) (a b : List (Option Msg)) :
+    feed s (a ++ b) = ((feed (feed s a).1 b).1, (feed s a).2 ++ (feed (feed s a).1 b).2) := by
+  induction a generalizing s with
+  | nil => simp [feed]
+  | cons m ms ih => simp only [List.cons_append, feed, ih, List.append_assoc]
+
+private theorem feed_bodies_t (s : S) (status : Nat) (hst : s.st = .response) (hr : s.response = some (status, true)) :
+    ∀ chunks : List Bytes,
+      (feed s (bodyMsgs chunks)).2 = (if Guards.suppressBody s.method status then [] else (chunks.filter nonEmpty).map Ev.body) ∧
+      (feed s (bodyMsgs chunks)).1 = { s with st := .trailers } := by
+  intro chunks
+  induction chunks with
+  | nil =>
+    by_cases hs : Guards.suppressBody s.method status = true <;>
+      simp [bodyMsgs, feed, appSend, hst, hr, bodyEv, hs]
+  | cons c rest ih =>
+    cases rest with
+    | nil =>
+      simp only [bodyMsgs, feed, appSend, hst, hr]
+      by_cases hs : Guards.suppressBody s.method status = true
+      · simp [hs]
+      · cases c with
+        | nil => simp [hs, bodyEv, nonEmpty]
+        | cons x xs => simp [hs, bodyEv, nonEmpty]
+    | cons c2 rest2 =>
+      have step : appSend s (some (.body (some (.bytes c)) true)) =
+          (s, (if Guards.suppressBody s.method status then [] else if c = [] then [] else [Ev.body c]), none) := by
+        simp only [appSend, hst, hr]
+        by_cases hs : Guards.suppressBody s.method status = true
+        · simp [hs]
+        · cases c <;> simp [hs, bodyEv]
+      have hb : bodyMsgs (c :: c2 :: rest2) = some (.body (some (.bytes c)) true) :: bodyMsgs (c2 :: rest2) := rfl
+      rw [hb]
+      simp only [feed, step]
+      obtain ⟨ih1, ih2⟩ := ih
+      refine ⟨?_, ih2⟩
+      rw [ih1]
+      by_cases hs : Guards.suppressBody s.method status = true
+      · simp [hs]
+      · cases c <;> simp [hs, List.filter_cons, nonEmpty]
+
+private theorem feed_trailers (s : S) (status : Nat) (b : Bool) (hst : s.st = .trailers) (hv : s.version = "2") (hr : s.response = some (status, b)) :
+    ∀ (trs : List (List (HV × HV))) (tvs : List Headers), validateAll trs = .ok tvs → trs ≠ [] →
+      (feed s (trailerMsgs trs)).2 = (if teTrailers s then tvs.map Ev.trailers else []) ++ [.endBody, .access (some status), .streamClosed] := by
+  have hin : inVersions s.version Consts.http_TRAILERS_VERSIONS = true := by rw [hv]; decide
+  have hne : ¬ (s.st = .request) := by rw [hst]; decide
+  intro trs
+  induction trs with
+  | nil => intro _ _ h; exact absurd rfl h
+  | cons t ts ih =>
+    intro tvs hf _
+    simp only [validateAll, bind, Except.bind, pure, Except.pure] at hf
+    cases htv : validateHeaders t with
+    | error e => simp [htv] at hf
+    | ok v =>
+      cases hrest : validateAll ts with
+      | error e => simp [htv, hrest] at hf
+      | ok vs =>
+        simp only [htv, hrest, Except.ok.injEq] at hf
+        subst hf
+        cases ts with
+        | nil =>
+          simp only [validateAll, Except.ok.injEq] at hrest
+          subst hrest
+          by_cases hte : teTrailers s = true
+          · simp [trailerMsgs, feed, appSend, hin, hst, hte, htv, sendClosed, hr]
+          · simp [trailerMsgs, feed, appSend, hin, hst, hte, sendClosed, hr]
+        | cons t2 ts2 =>
+          have ih' := ih vs hrest (by simp)
+          have hm : trailerMsgs (t :: t2 :: ts2) = some (.trailers (some t) true) :: trailerMsgs (t2 :: ts2) := rfl
+          rw [hm]
+          by_cases hte : teTrailers s = true
+          · have step : appSend s (some (.trailers (some t) true)) = (s, [.trailers v], none) := by
+              simp [appSend, hin, hst, hte, htv]
+            simp only [feed, step, ih', hte, if_true]
+            simp
+          · have step : appSend s (some (.trailers (some t) true)) = (s, [], none) := by
+              simp [appSend, hin, hst, hte]
+            simp only [feed, step, ih', hte]
+            simp
+
+/-- **response events with trailers**: for an HTTP/2 request, every status, header list and trailer lists that validate,
+    every chunking: one response head, the non-empty chunks in order, then — iff the client sent `te: trailers` — the
+    trailers of every `http.response.trailers` message in order, then end-of-body, the access record and stream-closed -/
+theorem events_of_wf_app_trailers (s : S) (status : Nat) (hs : List (HV × HV)) (vh : Headers) (chunks : List Bytes)
+    (trs : List (List (HV × HV))) (tvs : List Headers)
+    (h0 : s.st = .request) (hver : s.version = "2") (hv : validateHeaders hs = .ok vh)
+    (htv : validateAll trs = .ok tvs) (hne : trs ≠ []) :
+    (feed s (wfAppT status hs chunks trs)).2 =
+      [.response status vh] ++ (if Guards.suppressBody s.method status then [] else (chunks.filter nonEmpty).map Ev.body) ++
+      (if teTrailers s then tvs.map Ev.trailers else []) ++ [.endBody, .access (some status), .streamClosed] := by
+  have hstart : appSend s (some (.start (some status) (some hs) true)) =
+      ({ s with response := some (status, true), st := .response }, [.response status vh], none) := by
+    simp [appSend, h0, hv]
+  simp only [wfAppT, feed, hstart, feed_append]
+  obtain ⟨h1, h2⟩ := feed_bodies_t { s with response := some (status, true), st := .response } status rfl rfl chunks
+  rw [h1, h2]
+  have h3 := feed_trailers { s with response := some (status, true), st := .trailers } status true rfl hver rfl trs tvs htv hne
+  rw [h3]
+  simp [teTrailers]
+
+
+theorem evOps_trailers (l : List Headers) : evOps (l.map Ev.trailers) = l.map AOp.trailers := by
+  induction l with
+  | nil => rfl
+  | cons x xs ih => simp [evOps, ih]
+
+/-- **C02 over HTTP/2 with trailers, end to end in the model**: as `h2_response_end_to_end`, for an application that announces
+    and sends trailers.  To a client that sent `te: trailers` the stream is ended by the HEADERS frame carrying the trailers of
+    all `http.response.trailers` messages, in order, and END_STREAM (the one trailing block HTTP/2 allows); to any other client
+    by the empty DATA frame with END_STREAM, the trailers being dropped — after one HEADERS frame and DATA equal to the chunks -/
+theorem h2_response_trailers_end_to_end (s0 : S) (status : Nat) (hs : List (HV × HV)) (vh : Headers) (chunks : List Bytes)
+    (trs : List (List (HV × HV))) (tvs : List Headers)
+    (h0 : s0.st = .request) (hver : s0.version = "2") (hv : validateHeaders hs = .ok vh) (htv : validateAll trs = .ok tvs) (hne : trs ≠ [])
+    (srv : Headers) (cw : Int) (mf : Nat) (hmf : 0 < mf) (ops : List GOp) (g : G)
+    (hok : gAllOk srv (ginit cw mf) ops) (hr : grun srv (ginit cw mf) ops = some g) (i : Nat)
+    (happ : appOps i ops = evOps (feed s0 (wfAppT status hs chunks trs)).2)
+    (hq : HC.Props.C09.taskQuiescent g.s) (hc : g.s.closed = false) (hl : (g.s.str i).libClosed = false)
+    (hw : 0 < (g.s.str i).window) (hcw : 0 < g.s.connWin) :
+    ∃ frames : List Bytes,
+      wireOf i g.out = [.headers ((":status".b, natBytes status) :: (vh ++ srv))] ++ frames.map Frame.data ++
+        [endFrame (if teTrailers s0 then tvs.flatten else [])] ∧
+      frames.flatten = (if Guards.suppressBody s0.method status then [] else chunks.flatten) := by
+  rw [events_of_wf_app_trailers s0 status hs vh chunks trs tvs h0 hver hv htv hne] at happ
+  have hscript : evOps ([Ev.response status vh] ++ (if Guards.suppressBody s0.method status then [] else (chunks.filter nonEmpty).map Ev.body) ++
+      (if teTrailers s0 then tvs.map Ev.trailers else []) ++ [.endBody, .access (some status), .streamClosed]) =
+      script status vh (if Guards.suppressBody s0.method status then [] else chunks.filter nonEmpty) (if teTrailers s0 then tvs else []) true := by
+    simp only [evOps_append, script]
+    by_cases hs1 : Guards.suppressBody s0.method status = true <;> by_cases hs2 : teTrailers s0 = true <;>
+      simp [hs1, hs2, evOps, evOps_bodies, evOps_trailers]
+  rw [hscript] at happ
+  obtain ⟨frames, h1, h2⟩ := h2_response_delivered srv cw mf hmf ops g hok hr i status vh _ _ true happ hq hc hl hw hcw
+  refine ⟨frames, ?_, ?_⟩
+  · rw [h1]
+    by_cases hs2 : teTrailers s0 = true <;> simp [hs2, h2Headers]
+  · rw [h2]
+    by_cases hsup : Guards.suppressBody s0.method status = true
+    · simp [hsup]
+    · simp only [hsup]
+      exact flatten_filter_ne chunks
+
+
+/-- non-vacuity: a small window (5) and frame size (4), a stall at the exhausted window, credit, trailers: the hypotheses of
+    `h2_response_delivered` hold at the end of this schedule and the wire is as the theorem says -/
+def exOps : List GOp :=
+  [.low (.open_ 1 5), .head 1 200 [("x-a".b, "1".b)], .body 1 "abcdef".b, .low (.pick 1), .low (.sent 1), .low (.pick 1), .low (.sent 1),
+   .low (.pick 1), .body 1 "gh".b, .trailers 1 [("x-t".b, "v".b)], .low (.end_ 1), .low (.pick 1), .low .park, .low (.winStream 1 100), .low .wake,
+   .low (.pick 1), .low (.sent 1), .low (.endSent 1), .low (.drainWake 1), .low (.abandon 1), .low .park, .low .wake, .low .park]
+
+example : ∃ g, grun [("server".b, "h".b)] (ginit 65535 4) exOps = some g ∧
+    g.s.task = .parked ∧ g.s.hasData = false ∧ g.s.closed = false ∧ (g.s.str 1).libClosed = false ∧ 0 < (g.s.str 1).window ∧ 0 < g.s.connWin ∧
+    appOps 1 exOps = script 200 [("x-a".b, "1".b)] ["abcdef".b, "gh".b] [[("x-t".b, "v".b)]] true ∧
+    wireOf 1 g.out = [.headers [(":status".b, "200".b), ("x-a".b, "1".b), ("server".b, "h".b)], .data "abcd".b, .data "e".b, .data "fgh".b,
+                      .trailersEnd [("x-t".b, "v".b)]] := by
+  refine ⟨_, rfl, ?_⟩
+  decide
+
+end H2
 
 end HC.Props.C02
